@@ -18,7 +18,7 @@ CLAIMED = {
             "index builder, transport, names lock and pack objects are recording stubs; a pack name identifies its content"),
     "C07": ("autopack planning",
             "L1: pack_distribution/_max_pack_count for every total with <= 3/5 decimal digits; L2: plan_autopack_combinations "
-            "for <= 4/6 packs with UNBOUNDED positive revision counts against an arbitrary valid distribution; L3: the real "
+            "for <= 4/5 packs with UNBOUNDED positive revision counts against an arbitrary valid distribution; L3: the real "
             "_do_autopack over stub packs. L1 and L2 together give the property for every collection within those bounds.",
             "total = sum of per-pack counts (CombinedGraphIndex.key_count); plan execution (packer, I/O) outside"),
     "C13": ("rename journal, rollback and the apply phases (single failure)",
